@@ -2405,6 +2405,8 @@ class GroupBy:
         max_diff: float | int
             The threshold distance for forming a new sub-group
         """
+        # same length / same pandas index as the keys
+        self._preprocess_arguments(values, None)
         return numba_funcs.group_nearby_members(
             group_key=self.group_ikey,
             values=values,
